@@ -109,6 +109,8 @@ class DaemonFamily(Family):
                     if cause == "notfifo-audit" and load:
                         continue
                     cs.append(dict(cause=cause, load=load, rep=rep))
+            # a burst of events released together (behind an event that times out) while the output is gone
+            cs.append(dict(cause="writeerr-audit-burst", load=0, rep=rep))
         return cs
 
     def extra_cases(self, rng, n):
